@@ -70,9 +70,19 @@ class Finder(ast.NodeVisitor):
     def visit_FunctionDef(self, node):
         if node.name.startswith("_unittest"):
             return
-        self.generic_visit(node)
+        for d in node.args.defaults + [d for d in node.args.kw_defaults if d is not None]:
+            self.visit(d)
+        for st in node.body:   # (not the annotations of the arguments and of the result)
+            self.visit(st)
 
     visit_AsyncFunctionDef = visit_FunctionDef
+
+    def visit_arg(self, node):
+        return  # annotations are not evaluated
+
+    def visit_AnnAssign(self, node):
+        if node.value is not None:
+            self.visit(node.value)
 
     def visit_Assert(self, node):
         return
